@@ -18,6 +18,15 @@ def build(item):
         e3.reset_coverage_registry()
         cg, order = covref.build_cg(vsc, spec, enum_classes)
         m = cg.get_model()
+        base = {}
+        if item.get("prestate"):
+            # an arbitrary valid earlier state instead of a fresh covergroup: symbolic counts in every cross bin of the instance
+            # and of its type, unhit sets consistent with at_least (pattern 'all': every bin already covered)
+            from checks.c13 import inject
+            for ci, cr in enumerate(spec["crosses"]):
+                al = cr.get("at_least") or 1
+                base[("i", ci)] = inject(sym, m.cross_l[ci], "Ix%d" % ci, al, item["prestate"])
+                base[("t", ci)] = inject(sym, m.type_cg.cross_l[ci], "Tx%d" % ci, al, item["prestate"])
         samples = []   # per sample: {cpname: (v, iff)} and cross iffs
         for s in range(ns):
             args = []
@@ -67,6 +76,9 @@ def build(item):
                         conds.append(iff)
                         conds.append(in_ranges(v, refs[cpidx[n]]["bins"][bi][1]))
                     exp = exp + Ite(And(*conds), 1, 0)
+                if ("i", ci) in base:
+                    sym.check("type_cross_hits_from_state[%d]" % k, m.type_cg.cross_l[ci].get_bin_hits(k) == base[("t", ci)][k] + exp)
+                    exp = base[("i", ci)][k] + exp
                 sym.check("cross_hits[%s]" % (combo,), xm.get_bin_hits(k) == exp)
                 # name and order follow the coverpoints' bins
                 want = "<" + ",".join(m.coverpoint_l[cpidx[n]].get_bin_name(bi) for n, bi in zip(cr["cps"], combo)) + ">"
@@ -74,7 +86,7 @@ def build(item):
                 k += 1
             # type-level cross of a single instance agrees
             tx = m.type_cg.cross_l[ci]
-            for k in range(total):
+            for k in range(total if ("i", ci) not in base else 0):
                 sym.check("type_cross_hits[%d]" % k, tx.get_bin_hits(k) == xm.get_bin_hits(k))
     return dict(harness=h, theory="int", sig=sig, standins=e3.coverage_standins, max_paths=item.get("max_paths", 6000),
                 max_seconds=item.get("max_seconds", 150), desc="cross %s x%d" % (item.get("shape"), ns))
@@ -122,6 +134,14 @@ def shapes(t, sd):
                             {"name": "p2", "type": ["u", 4], "bins": L[l2], "iff": "f" if iffs[2] else None}],
                     "crosses": [{"name": "x", "cps": ["p1", "p2"], "iff": "f" if iffs[0] else None}]}
             items.append(dict(spec=spec, nsamples=ns if (not any(iffs) or t == "thorough") else 2, shape="%s*%s iff=%s" % (l1, l2, iffs)))
+    # a sample arriving in an arbitrary earlier state (every cross bin already covered / alternating), also with at_least > 1
+    for l1, l2, al, pat in (("singles", "partitioned", None, "all"), ("array_then_singles", "singles", 2, "all"), ("gappy", "two_arrays", None, "alt"),
+                            ("partitioned", "wild", 3, "all"), ("singles", "singles", None, "none")):
+        sp = _mk(L, l1, l2, (False, False, False))
+        sp["crosses"][0]["at_least"] = al
+        items.append(dict(spec=sp, nsamples=1 if t == "quick" else 2, shape="%s*%s from state %s at_least=%s" % (l1, l2, pat, al), prestate=pat))
+    sp = _mk(L, "singles", "partitioned", (True, False, True))
+    items.append(dict(spec=sp, nsamples=1 if t == "quick" else 2, shape="singles*partitioned iff from state all", prestate="all"))
     # three coverpoints
     for trip in (("singles", "partitioned", "two_arrays"), ("array_then_singles", "gappy", "partitioned")):
         spec = {"cps": [{"name": "p%d" % i, "type": ["u", 4], "bins": L[l]} for i, l in enumerate(trip)],
@@ -147,7 +167,8 @@ def main():
                             "sample values of 2..3 coverpoints and the iff values of the cross and of each coverpoint are symbolic over "
                             "sequences of 2 (quick) / 3 (thorough) samples, so stale hit markers / iff caches from the previous sample are "
                             "reachable; z3 shows that every cross bin's count equals the number of samples whose conditions and value "
-                            "combination match, and that bin names/order follow the coverpoints' bins",
+                            "combination match, and that bin names/order follow the coverpoints' bins; for a subset the samples arrive in an "
+                            "arbitrary earlier state (symbolic counts in every cross bin, all bins already covered / alternating)",
                 functions=["vsc.model.coverpoint_cross_model.CoverpointCrossModel.finalize/_build_hit_map/sample/get_bin_name/get_bin_hits",
                            "vsc.model.covergroup_model.CovergroupModel.sample", "vsc.model.coverpoint_model.CoverpointModel.sample/reset/set_target_value_cache",
                            "vsc.model.coverpoint_bin_*_model.sample/hit_idx", "vsc.coverage.cross/coverpoint/covergroup"])
